@@ -358,6 +358,23 @@ func ExpectedGroups(t *Tree) map[string]string {
 	return out
 }
 
+// ExpectedGroupsAll is ExpectedGroups over every entry that can have several
+// names: regular files and special files (fifos, devices, sockets).
+func ExpectedGroupsAll(t *Tree) map[string]string {
+	out := map[string]string{}
+	for _, n := range t.Nodes {
+		if n.Kind == KDir || n.Kind == KSymlink {
+			continue
+		}
+		if n.LinkTo != "" {
+			out[n.Path] = n.LinkTo
+		} else {
+			out[n.Path] = n.Path
+		}
+	}
+	return out
+}
+
 // CmpOpt selects which fields DiffSnap compares.
 type CmpOpt struct {
 	DirMtime     func(path string) bool // compare mtime of this directory?
@@ -371,6 +388,10 @@ type CmpOpt struct {
 	SkipOwner    bool
 	SecondMtime  bool // compare mtimes at second granularity
 	Ignore       func(path string) bool
+	// ExtraXattrsOK: for these paths only the attributes the wanted entry has are
+	// compared; further attributes on the entry found are not judged (a new name
+	// of an inode that was there before and keeps what it carried)
+	ExtraXattrsOK func(path string) bool
 }
 
 // DiffSnap compares got against want (two-directional on the path set).
@@ -438,6 +459,17 @@ func DiffSnap(got, want Snap, o CmpOpt) *Errs {
 			}
 		}
 		if cmpX && !sameX(g.Xattrs, w.Xattrs) {
+			if o.ExtraXattrsOK != nil && o.ExtraXattrsOK(p) {
+				sub := map[string]string{}
+				for k := range w.Xattrs {
+					if v, ok := g.Xattrs[k]; ok {
+						sub[k] = v
+					}
+				}
+				if sameX(sub, w.Xattrs) {
+					continue
+				}
+			}
 			errs.Addf("%q: xattrs %q want %q", p, g.Xattrs, w.Xattrs)
 		}
 	}
